@@ -136,7 +136,9 @@ func (t *Ticker) Stop() {
 
 func (t *Ticker) Reset(d Duration) {
 	mu.Lock()
+	// as in package time: the next tick comes one period after the Reset
 	t.w.Period, t.w.stopped = d, false
+	t.w.Created, t.w.lastDue = now, Time{}
 	mu.Unlock()
 }
 
